@@ -1126,9 +1126,10 @@ def _k(ctx, env):
     return OP(o1, a, OP(o2, b, c))
 
 
-@expr_kind('expr:right-nested:str+', 'str')
+@expr_kind('expr:right-nested:str+', 'str', envs=('func', 'ent'))
 def _k(ctx, env):
-    return OP('+', atom(ctx, 'str', env), OP('+', atom(ctx, 'str', env), atom(ctx, 'str', env)))
+    v = lambda: V(ctx.rnd.choice(['s1', 's2']))        # variables: adjacent literals of a chain compare as one literal
+    return OP('+', v(), OP('+', v(), v()))
 
 
 @expr_kind('expr:left-nested', 'int')
